@@ -707,7 +707,8 @@ func c18Run(c Case) (Result, error) {
 			}()
 			select {
 			case <-done:
-			case <-time.After(20 * time.Second):
+			case <-time.After(hangTimeout(20 * time.Second)):
+				noteHang()
 				return Result{}, implViolation("call %d of the sequence (%+v) never returned (20 s): a lock is held or never released after the preceding calls %v", len(items), o, ops[:len(items)])
 			}
 			if p {
@@ -732,7 +733,8 @@ func c18Run(c Case) (Result, error) {
 			if err != nil {
 				return Result{}, err
 			}
-		case <-time.After(90 * time.Second):
+		case <-time.After(hangTimeout(90 * time.Second)):
+			noteHang()
 			return Result{}, implViolation("the concurrent history did not complete within 90 s (threads %v): some call never returned", in.Threads)
 		}
 		return Result{Coq: fmt.Sprintf("mkCase %d %d %s [] [] false", in.N, in.T, my), Key: string(c.Input), Nontrivial: true}, nil
@@ -749,7 +751,8 @@ func c18Run(c Case) (Result, error) {
 		go func() { waitDone <- cmd.Wait() }()
 		select {
 		case runErr = <-waitDone:
-		case <-time.After(90 * time.Second):
+		case <-time.After(hangTimeout(90 * time.Second)):
+			noteHang()
 			_ = cmd.Process.Kill()
 			return Result{}, implViolation("the concurrent history did not complete within 90 s (threads %v): some call never returned", in.Threads)
 		}
